@@ -416,6 +416,42 @@ func formatArg(fr *frame, v value) string {
 	return s
 }
 
+// sprintfV is sprintf for a format that may have symbolic bytes (data used
+// as a format string).  Each symbolic byte forks on "is it '%'": where it
+// is, the byte is fixed to '%' and formatting proceeds concretely (so the
+// verbs the data happens to spell are honoured, as fmt would); where none
+// is, and the call has no operands and no concrete verb, the text goes
+// through unchanged.  Anything else is refused.
+func sprintfV(fr *frame, format value, args []value) value {
+	ss, isSym := format.(symstr)
+	if !isSym {
+		return sprintf(fr, formatArg(fr, format), args)
+	}
+	b := append([]value(nil), ss.b...)
+	concretePercent := false
+	symLeft := false
+	for k, x := range b {
+		if tm, isT := x.(*Term); isT {
+			if fr.i.branch(mk("=", boolSort, tm, mkBV(8, '%')), token.NoPos) {
+				b[k] = uint8('%')
+				concretePercent = true
+			} else {
+				symLeft = true
+			}
+		} else if x == uint8('%') {
+			concretePercent = true
+		}
+	}
+	if !symLeft {
+		return sprintf(fr, fr.i.concreteString(mkStr(b)), args)
+	}
+	if !concretePercent && len(args) == 0 {
+		return mkStr(b)
+	}
+	unsupported("format string with symbolic bytes next to verbs or operands")
+	return nil
+}
+
 func (i *interpreter) output(fr *frame, s value) {
 	if i.path != nil {
 		if cs, ok := s.(string); ok {
@@ -431,7 +467,7 @@ func (i *interpreter) output(fr *frame, s value) {
 
 func init() {
 	externals["fmt.Sprintf"] = func(fr *frame, args []value) value {
-		return sprintf(fr, formatArg(fr, args[0]), args[1].([]value))
+		return sprintfV(fr, args[0], args[1].([]value))
 	}
 	externals["fmt.Errorf"] = func(fr *frame, args []value) value {
 		s := sprintf(fr, formatArg(fr, args[0]), args[1].([]value))
@@ -455,7 +491,7 @@ func init() {
 		return tuple{strLen(s), iface{}}
 	}
 	externals["fmt.Fprintf"] = func(fr *frame, args []value) value {
-		s := sprintf(fr, formatArg(fr, args[1]), args[2].([]value))
+		s := sprintfV(fr, args[1], args[2].([]value))
 		return fr.i.writeTo(fr, args[0], s)
 	}
 	externals["fmt.Fprint"] = func(fr *frame, args []value) value {
